@@ -47,7 +47,7 @@ class TempProject:
 
     def __init__(self, version_pattern, current_version, files=None, contents=None, fmt="bumpver.toml", commit=False, tag=False,
                  push=False, tag_scope=None, vcs=None, vcs_cfg=None, hooks=None, commit_message=None, tag_message=None,
-                 line_sep="\n", extra_cfg_lines=(), quote_cfg=True, cfg_prefix=""):
+                 line_sep="\n", extra_cfg_lines=(), quote_cfg=True, cfg_prefix="", key_comment=False):
         self.version_pattern = version_pattern
         self.current_version = current_version
         self.files = dict(files or {})
@@ -64,6 +64,7 @@ class TempProject:
         self.extra_cfg_lines = list(extra_cfg_lines)
         self.quote_cfg = quote_cfg
         self.cfg_prefix = cfg_prefix     # text placed before the bumpver section (other tools' sections)
+        self.key_comment = key_comment   # a commented-out old current_version line above the live key
         self.dir = None
 
     # ------------------------------------------------------------------ construction
@@ -98,7 +99,8 @@ class TempProject:
         if self.fmt.endswith(".toml"):
             sec = "tool.bumpver" if self.fmt == "pyproject.toml" else "bumpver"
             b = lambda x: "true" if x else "false"
-            lines = ["[%s]" % sec, "current_version = %s" % toml_str(self.current_version), "version_pattern = %s" % toml_str(self.version_pattern)]
+            lines = ["[%s]" % sec] + (['# current_version = "0.0.1-old"'] if self.key_comment else []) + [
+                "current_version = %s" % toml_str(self.current_version), "version_pattern = %s" % toml_str(self.version_pattern)]
             if self.commit_message is not None:
                 lines.append("commit_message = %s" % toml_str(self.commit_message))
             if self.tag_message is not None:
@@ -166,8 +168,9 @@ class TempProject:
                 f.write("#!/bin/sh\n"
                         "h=$(sha1sum \"%s\" | cut -d' ' -f1)\n"
                         "printf '{\"key\": \"hook\", \"which\": \"%s\", \"watch\": \"%%s\", \"argv\": []}\\n' \"$h\" >> \"%s\"\n"
-                        "echo \"%s $BUMPVER_OLD_VERSION $BUMPVER_NEW_VERSION\" >> \"%s\"\nexit %d\n"
-                        % (watch, which, os.path.join(self.fakedir, "argv.log"), which, self.path(".hooks.log"), 0 if behaviour == "ok" else 3))
+                        "echo \"%s $BUMPVER_OLD_VERSION $BUMPVER_NEW_VERSION\" >> \"%s\"\n%s\n"
+                        % (watch, which, os.path.join(self.fakedir, "argv.log"), which, self.path(".hooks.log"),
+                           "exit 0" if behaviour == "ok" else ("kill -KILL $$" if behaviour == "kill" else "exit 3")))
             os.chmod(p, 0o755)
         if self.vcs in ("fakegit", "fakehg"):
             os.makedirs(self.path(".git" if self.vcs == "fakegit" else ".hg"), exist_ok=True)
